@@ -685,6 +685,120 @@ func gen() ([]byte, error) {
 		b.WriteString("(* handlers that run inside msg.Dispatcher.readLoop do no dial / read / write / sleep / channel receive in place\n" + blockingNote + " *)\n")
 		fmt.Fprintf(&b, "Definition gen_cli_sync_handlers_nonblocking : bool := %s.\n\n", boolS(nonblocking))
 	}
+	// server side: which handlers run inside the dispatcher's read loop, and how the dispatcher ends
+	{
+		srvf, err := funcs(fset, filepath.Join(tx.Repo, "server/control.go"))
+		if err != nil {
+			return nil, err
+		}
+		reg, err := need(srvf, "Control.registerMsgHandlers")
+		if err != nil {
+			return nil, err
+		}
+		known := map[string]string{"NewProxy": "newproxy", "CloseProxy": "closeproxy", "Ping": "ping",
+			"NatHoleVisitor": "natholevisitor", "NatHoleClient": "natholeclient", "NatHoleReport": "natholereport"}
+		seen := map[string]bool{}
+		var rerr error
+		ast.Inspect(reg.Body, func(n ast.Node) bool {
+			c, ok := n.(*ast.CallExpr)
+			if !ok || rerr != nil {
+				return true
+			}
+			sel, ok := c.Fun.(*ast.SelectorExpr)
+			if !ok || sel.Sel.Name != "RegisterHandler" {
+				return true
+			}
+			if len(c.Args) != 2 {
+				rerr = fmt.Errorf("server RegisterHandler with %d arguments", len(c.Args))
+				return false
+			}
+			t := strings.TrimSuffix(strings.TrimPrefix(src(fset, c.Args[0]), "&msg."), "{}")
+			name, ok := known[t]
+			if !ok || seen[t] {
+				rerr = fmt.Errorf("server handler for unknown or repeated message type %s", src(fset, c.Args[0]))
+				return false
+			}
+			seen[t] = true
+			async := false
+			if hc, ok := c.Args[1].(*ast.CallExpr); ok {
+				if !isSel(hc.Fun, "msg", "AsyncHandler") {
+					rerr = fmt.Errorf("server handler expression not recognised: %s", src(fset, c.Args[1]))
+					return false
+				}
+				async = true
+			}
+			fmt.Fprintf(&b, "Definition gen_srv_async_%s : bool := %s.\n", name, boolS(async))
+			return true
+		})
+		if rerr != nil {
+			return nil, rerr
+		}
+		for t := range known {
+			if !seen[t] {
+				return nil, fmt.Errorf("server registerMsgHandlers has no handler for %s", t)
+			}
+		}
+		// pkg/msg/handler.go: handlers are called in place by readLoop; doneCh is closed by readLoop only
+		hf, err := funcs(fset, filepath.Join(tx.Repo, "pkg/msg/handler.go"))
+		if err != nil {
+			return nil, err
+		}
+		rl, err := need(hf, "Dispatcher.readLoop")
+		if err != nil {
+			return nil, err
+		}
+		inline := strings.Contains(src(fset, rl.Body), "\thandler(m)") && !strings.Contains(src(fset, rl.Body), "go handler(")
+		goStmts := 0
+		ast.Inspect(rl.Body, func(n ast.Node) bool {
+			if _, ok := n.(*ast.GoStmt); ok {
+				goStmts++
+			}
+			return true
+		})
+		closers := []string{}
+		for name, fn := range hf {
+			if strings.Contains(strings.Join(strings.Fields(src(fset, fn.Body)), ""), "close(d.doneCh)") {
+				closers = append(closers, name)
+			}
+		}
+		b.WriteString("(* pkg/msg/handler.go: readLoop calls the handler in place (no go statement in it); close(d.doneCh) occurs in: " + tx.Sanitize(strings.Join(closers, ", ")) + " *)\n")
+		fmt.Fprintf(&b, "Definition gen_dispatcher_handlers_called_in_read_loop : bool := %s.\n", boolS(inline && goStmts == 0))
+		fmt.Fprintf(&b, "Definition gen_dispatcher_done_closed_by_read_loop_only : bool := %s.\n\n", boolS(len(closers) == 1 && closers[0] == "Dispatcher.readLoop"))
+	}
+	// pkg/auth/oidc.go: the shared verifier only ever APPENDS a login's subject to subjectsFromLogin
+	{
+		of, err := funcs(fset, filepath.Join(tx.Repo, "pkg/auth/oidc.go"))
+		if err != nil {
+			return nil, err
+		}
+		vl, err := need(of, "OidcAuthConsumer.VerifyLogin")
+		if err != nil {
+			return nil, err
+		}
+		appends, others := 0, []string{}
+		for name, fn := range of {
+			ast.Inspect(fn.Body, func(n ast.Node) bool {
+				as, ok := n.(*ast.AssignStmt)
+				if !ok || len(as.Lhs) != 1 || !strings.HasSuffix(src(fset, as.Lhs[0]), ".subjectsFromLogin") {
+					return true
+				}
+				rhs := strings.Join(strings.Fields(src(fset, as.Rhs[0])), "")
+				if name == "OidcAuthConsumer.VerifyLogin" && rhs == "append(auth.subjectsFromLogin,token.Subject)" {
+					appends++
+				} else {
+					others = append(others, name+": "+rhs)
+				}
+				return true
+			})
+		}
+		guarded := strings.Contains(strings.Join(strings.Fields(src(fset, vl.Body)), ""), "if!slices.Contains(auth.subjectsFromLogin,token.Subject){auth.subjectsFromLogin=append(auth.subjectsFromLogin,token.Subject)}")
+		b.WriteString("(* oidc verifier: VerifyLogin does `if !Contains(subjects, s) { subjects = append(subjects, s) }` and nothing else assigns the list")
+		if len(others) > 0 {
+			b.WriteString("; other assignments: " + tx.Sanitize(strings.Join(others, "; ")))
+		}
+		b.WriteString(" *)\n")
+		fmt.Fprintf(&b, "Definition gen_oidc_login_only_appends_subject : bool := %s.\n\n", boolS(appends == 1 && guarded && len(others) == 0))
+	}
 	run, err := need(svc, "Service.Run")
 	if err != nil {
 		return nil, err
